@@ -331,6 +331,8 @@ class World:
             return OT.dilation_kraus(n, 3, p.get("tag", 7))
         if name == "ident":
             return [np.eye(n, dtype=complex)]
+        if name == "uni":       # a single unitary Kraus operator (entangles the addressed subsystems)
+            return [OT.fixed_unitary(n, p.get("tag", 11))]
         if name == "proj":      # projective, complete: |0><0| , 1-|0><0|
             a = np.zeros((n, n), dtype=complex)
             a[0, 0] = 1
